@@ -44,6 +44,7 @@ fn main() {
         }
         Some("smoke") => props::smoke(),
         Some("golden-gen") => props::c10::generate(),
+        Some("c17-worker") => props::c17::worker(&args[2..]),
         Some("suite") => props::run_suite(
             args.get(2).map(|s| s.as_str()).unwrap_or(""),
             args.get(3).and_then(|s| s.parse().ok()).unwrap_or(3),
